@@ -1,10 +1,1 @@
 package dbseq
-
-import (
-	"testing"
-
-	"verif/report"
-)
-
-func checkC09(t *testing.T, env *report.Env, rep *report.Report) { t.Fatal("not built") }
-func checkC01(t *testing.T, env *report.Env, rep *report.Report) { t.Fatal("not built") }
